@@ -143,6 +143,90 @@ def build_program(case, order_of):
     return files, exp
 
 
+KINDS = ["var", "const", "func", "struct", "typealias", "typedef"]
+
+
+def decl_src(kind, name, public, value):
+    o = "öffentliche " if public else ""
+    if kind == "var":
+        return "Die %sZahl %s ist %d.\n" % (o, name, value)
+    if kind == "const":
+        return "Die %sKonstante %s ist %d.\n" % (o, name, value)
+    if kind == "func":
+        return ("Die %sFunktion %s gibt eine Zahl zurück, macht:\n\tGib %d zurück.\nUnd kann so benutzt werden:\n\t\"rufe %s\"\n\n" % (o, name, value, name))
+    if kind == "struct":
+        return ('Wir nennen die %sKombination aus\n\tder öffentlichen Zahl wert mit Standardwert %d,\neinen %s, und erstellen sie so:\n\t"ein neuer %s"\n\n'
+                % (o, value, name, name))
+    if kind == "typealias":
+        return "Wir nennen eine Zahl %sauch eine %s.\n" % ("öffentlich " if public else "", name)
+    return "Wir definieren eine %s %sals eine Zahl.\n" % (name, "öffentlich " if public else "")
+
+
+def use_src(kind, name, value):
+    """(statements using the name, what they print)"""
+    if kind in ("var", "const"):
+        return "Schreibe %s auf eine Zeile.\n" % name, "%d\n" % value
+    if kind == "func":
+        return "Schreibe (rufe %s) auf eine Zeile.\n" % name, "%d\n" % value
+    if kind == "struct":
+        return "Der %s v_%s ist ein neuer %s.\nSchreibe (wert von v_%s) auf eine Zeile.\n" % (name, name, name, name), "%d\n" % value
+    if kind == "typealias":
+        return "Die %s v_%s ist %d.\nSchreibe v_%s auf eine Zeile.\n" % (name, name, value, name), "%d\n" % value
+    return "Die %s v_%s ist %d als %s.\nSchreibe (v_%s als Zahl) auf eine Zeile.\n" % (name, name, value, name, name), "%d\n" % value
+
+
+def visibility_cases(rng, n):
+    """(label, files, model request, used names, {name: (kind, value)})"""
+    out = []
+    for ci in range(n):
+        k = 2 + rng.below(4)
+        decls = []
+        for j in range(k):
+            kind = KINDS[rng.below(len(KINDS))]
+            name = ("Ding%d" if kind in ("struct", "typealias", "typedef") else "ding%d") % j
+            decls.append((kind, name, rng.below(2) == 1, 10 * (j + 1) + ci % 7))
+        m = HEAD + "".join(decl_src(*d) for d in decls)
+        # the module uses its own private names itself, through a public function
+        m += ("Die öffentliche Funktion innen gibt eine Zahl zurück, macht:\n\tGib %s zurück.\nUnd kann so benutzt werden:\n\t\"was innen ist\"\n\n"
+              % " plus ".join(["0"] + [d[1] if d[0] in ("var", "const") else "(rufe %s)" % d[1] for d in decls if d[0] in ("var", "const", "func")]))
+        names = [d[1] for d in decls]
+        mode = rng.below(4)
+        if mode == 0:
+            listed = None
+        else:
+            listed = [x for x in names if rng.below(100) < 50] or [names[0]]
+            if mode == 3 and rng.below(2):
+                listed.append("gibtsnicht")
+        # one used name per program (single cause), or everything the import should give
+        pick = rng.below(3)
+        if pick == 0:
+            used = [names[rng.below(k)]]
+        elif pick == 1:
+            used = [x for x, d in zip(names, decls) if d[2] and (listed is None or x in listed)]
+        else:
+            used = []
+        main = HEAD + ('Binde "m1" ein.\n' if listed is None else "Binde %s aus \"m1\" ein.\n" % (listed[0] if len(listed) == 1 else ", ".join(listed[:-1]) + " und " + listed[-1]))
+        exp = ""
+        info = {d[1]: d for d in decls}
+        for x in used:
+            u, e = use_src(info[x][0], x, info[x][3])
+            main += u
+            exp += e
+        # own declarations under the private names of the module: distinct objects
+        own = [d for d in decls if not d[2] and d[1] not in used and d[0] in ("var", "const", "func") and rng.below(2)]
+        for kind, name, _, value in own:
+            main += decl_src(kind, name, False, value + 500)
+            u, e = use_src(kind, name, value + 500)
+            main += u
+            exp += e
+        if listed is None or "innen" in (listed or []):
+            main += "Schreibe (was innen ist) auf eine Zeile.\n"
+            exp += "%d\n" % sum(d[3] for d in decls if d[0] in ("var", "const", "func"))
+        rq = "visible %s %s" % (",".join("%s:%d" % (d[1], d[2]) for d in decls) + ",innen:1", "-" if listed is None else ",".join(listed))
+        out.append(("vis:%d" % ci, {"m1.ddp": m, "main.ddp": main}, rq, used, exp, decls, listed))
+    return out
+
+
 NEGATIVE = [
     ("private-global", {"m1.ddp": HEAD + "Die Zahl geheim ist 1.\nDie öffentliche Zahl offen ist 2.\n",
                         "main.ddp": HEAD + 'Binde "m1" ein.\nSchreibe geheim auf eine Zeile.\n'}),
@@ -255,6 +339,28 @@ def check(res, tier):
         if r.cls != "compile-rejected":
             res.violation("negative:" + name, "%s was not rejected with a diagnostic: %s" % (name, r.cls),
                           {"files": files, "program": files["main.ddp"], "expected": "rejected with a diagnostic", "implementation": r.as_dict()})
+    # what an import makes visible: every declaration kind, public and private, whole-module and by-name imports
+    vis = visibility_cases(rng, 150 if quick else 2500)
+    verdicts = corr.run_lines(model, [v[2] for v in vis])
+    vouts = pipeline.farm(ddp, [(v[1], cfg, {}) for v in vis])
+    for (lab, files, rq, used, exp, decls, listed), verdict, r in zip(vis, verdicts, vouts):
+        res.evaluations += 1
+        if verdict == "error":
+            want_ok = False
+        else:
+            visible = verdict[len("visible "):].split(",") if len(verdict) > 8 else []
+            want_ok = all(u in visible for u in used)
+        st["visibility:%s:%s" % ("accept" if want_ok else "reject", r.cls)] += 1
+        res.nontrivial("vis:%s:%s:%s" % (sorted(set(d[0] + str(d[2]) for d in decls)), listed is None, want_ok))
+        bad = None
+        if want_ok and (r.cls != "ok" or r.stdout != exp):
+            bad = "an import does not give what the module's public declarations are (expected %r, got %s %r)" % (exp, r.cls, r.stdout[-200:])
+        elif not want_ok and r.cls != "compile-rejected":
+            bad = "a private or unlisted name of another module is usable, or an impossible by-name import is accepted (%s)" % r.cls
+        if bad:
+            res.violation("visibility:%s" % (hash(files["main.ddp"] + files["m1.ddp"]) % 10 ** 9), bad,
+                          {"files": files, "program": files["main.ddp"], "model_request": rq, "model": verdict, "used_names": used,
+                           "expected_stdout": exp if want_ok else None, "implementation": r.as_dict()})
     ans = pipeline.farm(ddp, [(f, cfg, {"timeout": 20}) for _, f in ANSWERED])
     for (name, files), r in zip(ANSWERED, ans):
         res.evaluations += 1
@@ -275,7 +381,10 @@ def check(res, tier):
     res.extra.update({"module_graphs": len(cases), "configs": [c.name() for c in cfgs], "outcomes": dict(st),
                       "negative_programs": [n for n, _ in NEGATIVE], "answered_programs": [n for n, _ in ANSWERED], "positive_programs": [n for n, _, _ in POSITIVE],
                       "graph_sizes": dict(Counter(c[0] for c in cases))})
-    res.rule = ("ranked module DAGs of 2..5 modules, imports in random order, whole-module and by-name imports; each module: public global "
+    res.rule = ("visibility: modules of 2-5 declarations of every kind (variable, constant, function, Kombination, type alias, type "
+                "definition), each public or private, imported whole or by name (also private and unknown names listed), one used name or all "
+                "visible names per program, the importer's own declarations under the module's private names: verdict and output against "
+                "DDP.Modules.visible; ranked module DAGs of 2..5 modules, imports in random order, whole-module and by-name imports; each module: public global "
                 "(initialiser prints and adds the imported modules' globals), private global, same private name in all modules, public "
                 "function reading the private ones, a top-level statement; main imports a random subset in random order between prints: "
                 "stdout equal to the model's initialisation sequence; fixed negative programs (private / unlisted / unknown / transitive "
